@@ -108,10 +108,12 @@ def functions_defined(text):
 RENAMED = ["vector", "matrix", "fragment", "device", "constant", "thread", "kernel", "vertex"]
 
 
-def _gname(entry, i, decl_word):
+def _gname(entry, i, decl_word, prev_word=""):
     """the declared name of global i (harness/src/c05.rs gname)"""
     if entry.endswith("+R") and i < len(RENAMED) and decl_word.startswith("o:"):
         return RENAMED[i]
+    if entry.endswith("+N") and i % 2 == 1 and decl_word.startswith("o:") and prev_word.startswith("o:"):
+        return "g%d" % (i - 1)
     return "g%d" % i
 
 
@@ -143,10 +145,16 @@ def check(case, impl):
         names = [e["name"] for e in entries]
         if len(set(names)) != len(names):
             return "metadata lists a binding name twice: %r" % names
+        # the namespace style gives two declarations one leaf name: what is reflected under that name cannot be
+        # attributed to one of them, so those names are left out of the per-name rules
+        all_names = [_gname(entry, k, w_, decl_words[k - 1] if k > 0 else "") for k, w_ in enumerate(decl_words)]
+        shared = set(n for n in all_names if all_names.count(n) > 1)
+        entries = [e for e in entries if e["name"] not in shared]
         by_name = dict((e["name"], e) for e in entries)
         is_main = not (mode == "all" and pi == 1)
         if target.startswith("Hlsl"):
             decls, istructs = parse_hlsl(text)
+            decls = dict((k, v) for k, v in decls.items() if k not in shared)
             for name, d in decls.items():
                 if d["kind"] == "none":
                     if d["type"] in DTYPE_OF_HLSL.values() and name in by_name:
@@ -211,6 +219,7 @@ def check(case, impl):
                             return "thread group size %s of stage %s does not match the program's %s" % (got, kind, _program_tg(entry, kind, tg))
         else:
             members = parse_msl(text)
+            members = dict((k, v) for k, v in members.items() if k not in shared)
             for name, (g, idx, cnt, ty) in members.items():
                 e = by_name.get(name)
                 if e is None:
@@ -227,8 +236,11 @@ def check(case, impl):
             # usage: reachable from the entry point <=> reported used (Metal)
             if is_main and mode != "nopipe":
                 reach = uses | huses
+                all_names = [_gname(entry, k, w_, decl_words[k - 1] if k > 0 else "") for k, w_ in enumerate(decl_words)]
                 for i, dw in enumerate(decl_words):
-                    nm = _gname(entry, i, dw)
+                    nm = all_names[i]
+                    if all_names.count(nm) > 1:
+                        continue     # two declarations share the reflected name: the entry cannot be attributed
                     if nm in by_name:
                         if (i in reach) != by_name[nm]["used"]:
                             return "%s is %s by the entry point but reported is_used=%s" % (nm, "reached" if i in reach else "not reached", by_name[nm]["used"])
